@@ -16,7 +16,8 @@ func init() {
 		Level: "exploration",
 		Rule: "all 22 instantiations of FloatAsSigned / FloatAsUnsigned; float32 sources: every non-NaN bit pattern in ascending order in the thorough tier (11 destinations x 4278190082 values, segments stitched by one overlapping value), a stride sample of that order + boundary lists in the quick tier; float64 sources: values adjacent (3 neighbours each side) to +-2^k and +-1.5*2^k for k=-70..70, to +-1, 0, multiples of 127/128/255/256/32767/.../2^63/2^64, quotients next to integers and halves of the full scales, +-Inf, subnormals, and seeded random values in and far outside [-1,1]; " +
 			"oracle: x>=1 -> highest code, x<=-1 -> lowest code, +-0 -> zero-amplitude code, otherwise result amplitude within [ceil(p)-1, floor(p)+1] of the exact product p = x*full-scale (128-bit integer arithmetic from the float's mantissa/exponent, cross-checked against big.Rat), and results non-decreasing along the ascending enumeration; " +
-			"distinct = (instantiation, input value) pairs enumerated once; every pair is non-trivial",
+			"distinct = (instantiation, input value) pairs enumerated once; every pair is non-trivial; " +
+			"also: conversions into a shorter destination with spare capacity first, sources last written as a whole by another conversion and then filled through a second view",
 		Assume:    []string{"NaN inputs are excluded (result unspecified)", "float->integer conversions are only observed through the library; results are those of this platform (amd64)"},
 		Exhaustiv: "float32 sources in the thorough tier (every non-NaN bit pattern); float64 sources are sampled",
 		Plan:      fixedPlan,
